@@ -6,6 +6,7 @@ package zzverif
 
 import (
 	"runtime"
+	"sync/atomic"
 	"encoding/hex"
 	"fmt"
 	"math"
@@ -139,8 +140,29 @@ func AfterFuncDelay(i int) int64    { return 0 }
 func AfterFuncStopped(i int) bool   { return false }
 func AfterFuncFire(i int)           {}
 func ExploreSchedules(on bool)      {}
-func Go(f func())                   { go f() }
-func WaitAll()                      { time.Sleep(100 * time.Millisecond) }
+// Go starts a goroutine that WaitAll waits for.
+func Go(f func()) {
+	atomic.AddInt64(&goCount, 1)
+	go func() {
+		defer atomic.AddInt64(&goCount, -1)
+		f()
+	}()
+}
+
+var goCount int64
+
+// WaitAll waits until every goroutine started with Go has finished. Natively a goroutine that is
+// still running after 5 s is reported like the engine reports a deadlock.
+func WaitAll() {
+	for i := 0; i < 500; i++ {
+		if atomic.LoadInt64(&goCount) == 0 {
+			return
+		}
+		time.Sleep(10 * time.Millisecond)
+	}
+	fmt.Println("VERIF-REPLAY: ASSERT-FAILED deadlock: a goroutine is still blocked 5s after the connection ended")
+	os.Exit(1)
+}
 func Role(r string)                 {}
 func TimeOf(t time.Time) int64      { return t.UnixNano() }
 
@@ -214,3 +236,9 @@ func ArmedWaits() int          { return 0 }
 func ArmInstant(i int) int64   { return 0 }
 func ArmDuration(i int) int64  { return 0 }
 func ArmIsTicker(i int) bool   { return true }
+
+// CoarseSchedules restricts schedule exploration to channel / select / cancel / go switch points.
+func CoarseSchedules(on bool) {}
+
+// PickRotation sets the offset of the deterministic choice made when the running goroutine blocks.
+func PickRotation(k int) {}
